@@ -9,10 +9,12 @@ import (
 	"errors"
 	"io"
 	"reflect"
+	"time"
 
 	"github.com/hashicorp/go-hclog"
 	"google.golang.org/grpc"
 	"google.golang.org/protobuf/proto"
+	"google.golang.org/protobuf/types/known/timestamppb"
 
 	"github.com/hashicorp/consul-net-rpc/go-msgpack/codec"
 
@@ -326,6 +328,55 @@ func VerifC02_PeeringRestore() {
 		f2, e2 := restored.ValidateProposedPeeringSecretUUID(id)
 		verifrt.Assert("C02.peering.secret-uuid-availability-agrees", f1 == f2 && (e1 == nil) == (e2 == nil))
 	}
+	vAssertSameTables(s, restored)
+	verifrt.Reached("end")
+}
+
+// The dialing side of a peering: its stream secret was generated by the other cluster and is stored without
+// being tracked as "in use here"; snapshot and restore must give back the same tables, and deleting the
+// peering afterwards must behave alike on both stores.
+func VerifC02_DialingPeeringRestore() {
+	if verifrt.Symbolic() {
+		vInstallIdealCodec(&vTape{})
+	}
+	const (
+		peerID = "2fabcd52-1d46-49b0-b1d8-71559aee47f5"
+		strm   = "1b7812d4-32d9-4e54-b1b3-4d97084982a0"
+	)
+	s := state.NewStateStore(nil)
+	next := uint64(0)
+	tick := func() uint64 {
+		n := verifrt.U64("index")
+		verifrt.Assume(n > next && n < 1<<40)
+		next = n
+		return next
+	}
+	must := func(err error) {
+		if err != nil {
+			panic(err)
+		}
+	}
+	dialer := func() *pbpeering.Peering {
+		return &pbpeering.Peering{ID: peerID, Name: "dialer", PeerServerAddresses: []string{"10.0.0.1:8502"}, PeerID: "3fabcd52-1d46-49b0-b1d8-71559aee47f5"}
+	}
+	must(s.PeeringWrite(tick(), &pbpeering.PeeringWriteRequest{Peering: dialer(),
+		SecretsRequest: &pbpeering.SecretsWriteRequest{PeerID: peerID, Request: &pbpeering.SecretsWriteRequest_Establish{
+			Establish: &pbpeering.SecretsWriteRequest_EstablishRequest{ActiveStreamSecret: strm}}}}))
+	restored := vSnapshotRestore(s)
+	vAssertSameTables(s, restored)
+	f1, e1 := s.ValidateProposedPeeringSecretUUID(strm)
+	f2, e2 := restored.ValidateProposedPeeringSecretUUID(strm)
+	verifrt.Assert("C02.peering.secret-uuid-availability-agrees", f1 == f2 && (e1 == nil) == (e2 == nil))
+	// continuation: the peering is marked for deletion (which drops its secrets) on both stores
+	idx := tick()
+	del := func(st *state.Store) error {
+		p := dialer()
+		p.State = pbpeering.PeeringState_DELETING
+		p.DeletedAt = timestamppb.New(time.Unix(1700000000, 0))
+		return st.PeeringWrite(idx, &pbpeering.PeeringWriteRequest{Peering: p})
+	}
+	d1, d2 := del(s), del(restored)
+	verifrt.Assert("C02.peering.continuation-agrees", (d1 == nil) == (d2 == nil))
 	vAssertSameTables(s, restored)
 	verifrt.Reached("end")
 }
